@@ -14,7 +14,7 @@ DROP = {"start", "prog.end"}
 def _schema_ok(e):
     ev, d = e["ev"], e["d"]
     try:
-        if ev in ("loop.wait", "clear.begin", "ntf.snap", "stop.join", "stop.pool", "stop.drain", "red.begin", "mw.check", "loop.end", "iter.end", "iter.drop"):
+        if ev in ("loop.wait", "clear.begin", "ntf.snap", "stop.join", "stop.pool", "stop.drain", "stop.closed", "red.begin", "mw.check", "loop.end", "iter.end", "iter.drop"):
             return d == 0
         if ev in ("send.full", "ch.txlock", "ch.join", "chloop.wait", "chloop.exit", "chfwd.begin", "sub.spawned"):
             return isinstance(d["ch"], str)
